@@ -21,7 +21,7 @@ ASSUMPTIONS = [
     "best-of-k ties (equal reward within 1e-4) accept any of the tied rollouts",
     "POMO/SymNCO regrouping of per-rollout values by factor is C16's concern",
 ]
-REQUIRED_COUNTERS = ["c12_batchify_calls", "c12_unbatchify_calls", "c12_gather_calls", "c12_start_rows", "c12_rollout_rows", "c12_select_best_taps", "c12_best_rows", "c12_start_taps", "c12_strategy_calls", "c12_state_reward_rows"]
+REQUIRED_COUNTERS = ["c12_batchify_calls", "c12_unbatchify_calls", "c12_gather_calls", "c12_cache_batchify_calls", "c12_start_rows", "c12_rollout_rows", "c12_select_best_taps", "c12_best_rows", "c12_start_taps", "c12_strategy_calls", "c12_state_reward_rows"]
 MIN_NONTRIVIAL = {"quick": 3000, "thorough": 30000}
 WORKERS = {"quick": 14, "thorough": 16}
 BUDGET_S = {"quick": 500, "thorough": 3000}
